@@ -58,12 +58,17 @@ fn worker_b_path(root: &Path) -> Option<PathBuf> {
 
 impl Worker {
     pub fn spawn(root: &Path, run_dir: &Path, flavour: char, slot: usize) -> Option<Worker> {
+        Self::spawn_capped(root, run_dir, flavour, slot, None)
+    }
+
+    pub fn spawn_capped(root: &Path, run_dir: &Path, flavour: char, slot: usize, cap: Option<&str>) -> Option<Worker> {
         let exe = match flavour {
             'A' => std::env::current_exe().ok()?,
             _ => worker_b_path(root)?,
         };
-        let log = run_dir.join(format!("worker-{flavour}-{slot}.log"));
-        let scratch = run_dir.join(format!("scratch-{flavour}-{slot}"));
+        let capn = cap.unwrap_or("native");
+        let log = run_dir.join(format!("worker-{flavour}-{capn}-{slot}.log"));
+        let scratch = run_dir.join(format!("scratch-{flavour}-{capn}-{slot}"));
         let mut cmd = Command::new(exe);
         cmd.arg("worker")
             .env("VERIF_WORKER_LOG", &log)
@@ -71,6 +76,7 @@ impl Worker {
             .env("RUST_BACKTRACE", "0")
             .env("ASAN_SYMBOLIZER_PATH", "/usr/bin/llvm-symbolizer-14")
             .env("VERIF_FLAVOUR", flavour.to_string())
+            .env("ZIPORA_VERIF_TIER_CAP", capn)
             .env(
                 "ASAN_OPTIONS",
                 "detect_leaks=0:abort_on_error=1:allocator_may_return_null=1:max_allocation_size_mb=3072:detect_stack_use_after_return=0:symbolize=1",
@@ -152,7 +158,23 @@ impl Worker {
     }
 
     fn crashed(&mut self) -> Exec {
-        let status = self.child.wait().ok();
+        // the worker normally is already dead (EOF on its pipe); if it is still alive (it sent
+        // garbage, e.g. after memory corruption) give it a moment and then kill it
+        let mut status = None;
+        for _ in 0..100 {
+            match self.child.try_wait() {
+                Ok(Some(st)) => {
+                    status = Some(st);
+                    break;
+                }
+                Ok(None) => std::thread::sleep(std::time::Duration::from_millis(10)),
+                Err(_) => break,
+            }
+        }
+        if status.is_none() {
+            let _ = self.child.kill();
+            status = self.child.wait().ok();
+        }
         let tail = self.log_tail();
         let sig = status.and_then(|s| s.signal());
         let mut class = match sig {
@@ -252,19 +274,26 @@ pub struct Session<'a> {
     stats: Mutex<Stats>,
 }
 
-fn full_sig(d: &Discrepancy, flavour: char) -> String {
-    format!("{}@{}", d.signature(), flavour)
+fn full_sig(d: &Discrepancy, flavour: char, cap: Option<&str>) -> String {
+    match cap {
+        Some(c) => format!("{}@{}+{}", d.signature(), flavour, c),
+        None => format!("{}@{}", d.signature(), flavour),
+    }
 }
 
 impl<'a> Session<'a> {
     /// Execute a case, converting crashes / hangs into discrepancies.  Restarts the worker
     /// when it died.
     fn exec(&self, w: &mut Option<Worker>, flavour: char, slot: usize, case: &Value) -> Option<Outcome> {
+        self.exec_capped(w, flavour, slot, case, None)
+    }
+
+    fn exec_capped(&self, w: &mut Option<Worker>, flavour: char, slot: usize, case: &Value, cap: Option<&str>) -> Option<Outcome> {
         if w.as_ref().map(|x| x.served > 4000).unwrap_or(false) {
             *w = None; // recycle: bounds state leaking between cases
         }
         if w.is_none() {
-            *w = Worker::spawn(&self.opts.root, &self.run_dir, flavour, slot);
+            *w = Worker::spawn_capped(&self.opts.root, &self.run_dir, flavour, slot, cap);
         }
         let worker = w.as_mut()?;
         let budget = self.prop.cpu_budget_s();
@@ -290,7 +319,7 @@ impl<'a> Session<'a> {
             Exec::Hang => {
                 *w = None;
                 // confirm alone in a fresh worker with 4x the budget
-                let mut fresh = Worker::spawn(&self.opts.root, &self.run_dir, flavour, slot + 1000)?;
+                let mut fresh = Worker::spawn_capped(&self.opts.root, &self.run_dir, flavour, slot + 1000, cap)?;
                 match fresh.exec(self.prop.id(), self.opts.tier, case, budget * 4) {
                     Exec::Done(o) => {
                         self.stats.lock().unwrap().watchdog_hits += 1;
@@ -324,7 +353,7 @@ impl<'a> Session<'a> {
     }
 
     /// Split an outcome into known hits and unknown discrepancies; update statistics if `count`.
-    fn digest(&self, case: &Value, out: &Outcome, flavour: char, count: bool) -> Vec<Discrepancy> {
+    fn digest(&self, case: &Value, out: &Outcome, flavour: char, count: bool, cap: Option<&str>) -> Vec<Discrepancy> {
         let mut unknown = vec![];
         let mut st = self.stats.lock().unwrap();
         let cell = case["cell"].as_str().unwrap_or("?").to_string();
@@ -359,7 +388,7 @@ impl<'a> Session<'a> {
             }
         }
         for d in &out.discrepancies {
-            let fs = full_sig(d, flavour);
+            let fs = full_sig(d, flavour, cap);
             match self.known.matches(self.prop.id(), &fs) {
                 Some(i) => {
                     if count {
@@ -385,13 +414,13 @@ impl<'a> Session<'a> {
     }
 
     /// Confirm a failing case in a fresh worker, then record it.
-    fn confirm_and_record(&self, case: &Value, flavour: char, target_sig: &str, source: &str, slot: usize) {
+    fn confirm_and_record(&self, case: &Value, flavour: char, target_sig: &str, source: &str, slot: usize, cap: Option<&str>) {
         let mut fresh: Option<Worker> = None;
-        let out = self.exec(&mut fresh, flavour, slot + 2000, case);
+        let out = self.exec_capped(&mut fresh, flavour, slot + 2000, case, cap);
         let mut found = None;
         if let Some(o) = out {
-            for d in self.digest(case, &o, flavour, false) {
-                if full_sig(&d, flavour) == target_sig {
+            for d in self.digest(case, &o, flavour, false, cap) {
+                if full_sig(&d, flavour, cap) == target_sig {
                     found = Some(d);
                     break;
                 } else if found.is_none() {
@@ -401,7 +430,7 @@ impl<'a> Session<'a> {
         }
         match found {
             Some(d) => {
-                let sig = full_sig(&d, flavour);
+                let sig = full_sig(&d, flavour, cap);
                 self.record_violation(Violation { sig, disc: d, case: case.clone(), flavour, source: source.into() });
             }
             None => {
@@ -415,6 +444,7 @@ impl<'a> Session<'a> {
 
 struct Unit {
     plan: usize,
+    cap: Option<String>,
     flavour: char,
     cases: usize,
     seed: u64,
@@ -460,8 +490,8 @@ pub fn check(prop: &dyn Prop, opts: &Opts) -> i32 {
                 let w = if fl == 'A' { &mut wa } else { &mut wb };
                 if let Some(o) = sess.exec(w, fl, 900, &case) {
                     sess.stats.lock().unwrap().replayed_files += 1;
-                    for d in sess.digest(&case, &o, fl, true) {
-                        let sig = full_sig(&d, fl);
+                    for d in sess.digest(&case, &o, fl, true, None) {
+                        let sig = full_sig(&d, fl, None);
                         sess.record_violation(Violation {
                             sig,
                             disc: d,
@@ -484,7 +514,13 @@ pub fn check(prop: &dyn Prop, opts: &Opts) -> i32 {
                 continue;
             }
         }
-        for (fl, n) in [('A', p.cases), ('B', p.cases_b)] {
+        let mut variants: Vec<(char, usize, Option<String>)> = vec![('A', p.cases, p.cap.clone()), ('B', p.cases_b, p.cap.clone())];
+        if p.cap.is_none() {
+            for (cap, frac) in prop.tier_caps() {
+                variants.push(('A', ((p.cases as f64) * frac).ceil() as usize, Some(cap.to_string())));
+            }
+        }
+        for (fl, n, vcap) in variants {
             let n = ((n as f64) * opts.scale).ceil() as usize;
             if n == 0 || (fl == 'B' && !have_b) {
                 continue;
@@ -495,9 +531,10 @@ pub fn check(prop: &dyn Prop, opts: &Opts) -> i32 {
                 if c > 0 {
                     units.push(Unit {
                         plan: pi,
+                        cap: vcap.clone(),
                         flavour: fl,
                         cases: c,
-                        seed: mix(mix(opts.seed, fnv(id.as_bytes())), mix(fnv(p.cell.as_bytes()), (s as u64) << 8 | fl as u64)),
+                        seed: mix(mix(opts.seed, fnv(id.as_bytes())), mix(fnv(p.cell.as_bytes()) ^ fnv(vcap.clone().unwrap_or_default().as_bytes()), (s as u64) << 8 | fl as u64)),
                     });
                 }
             }
@@ -520,7 +557,7 @@ pub fn check(prop: &dyn Prop, opts: &Opts) -> i32 {
             sc.spawn(move || {
                 let plans = sess.prop.plans(sess.opts.tier);
                 let mut wa: Option<Worker> = None;
-                let mut wb: Option<Worker> = None;
+                let mut capped: std::collections::HashMap<(char, String), Option<Worker>> = std::collections::HashMap::new();
                 loop {
                     let ui = next.fetch_add(1, Ordering::SeqCst);
                     if ui >= units.len() {
@@ -542,35 +579,36 @@ pub fn check(prop: &dyn Prop, opts: &Opts) -> i32 {
                     };
                     let mut runner = TestRunner::new_with_rng(cfg, TestRng::from_seed(RngAlgorithm::ChaCha, &seed_bytes));
                     let failed: std::cell::RefCell<Option<String>> = std::cell::RefCell::new(None);
-                    let w = if u.flavour == 'A' { &mut wa } else { &mut wb };
+                    let capname = u.cap.clone().unwrap_or_else(|| "native".to_string());
+                    let w = if u.flavour == 'A' && u.cap.is_none() { &mut wa } else { capped.entry((u.flavour, capname)).or_insert(None) };
                     let wcell = std::cell::RefCell::new(w);
                     let res = runner.run(&plan.strategy, |case| {
                         let shrinking = failed.borrow().is_some();
                         let mut wref = wcell.borrow_mut();
-                        let out = match sess.exec(&mut **wref, u.flavour, slot, &case) {
+                        let out = match sess.exec_capped(&mut **wref, u.flavour, slot, &case, u.cap.as_deref()) {
                             Some(o) => o,
                             None => return Ok(()),
                         };
-                        let unknown = sess.digest(&case, &out, u.flavour, !shrinking);
+                        let unknown = sess.digest(&case, &out, u.flavour, !shrinking, u.cap.as_deref());
                         if unknown.is_empty() {
                             return Ok(());
                         }
                         if shrinking {
                             let target = failed.borrow().clone().unwrap();
-                            if unknown.iter().any(|d| full_sig(d, u.flavour) == target) {
+                            if unknown.iter().any(|d| full_sig(d, u.flavour, u.cap.as_deref()) == target) {
                                 Err(TestCaseError::fail(target))
                             } else {
                                 Ok(())
                             }
                         } else {
-                            let sig = full_sig(&unknown[0], u.flavour);
+                            let sig = full_sig(&unknown[0], u.flavour, u.cap.as_deref());
                             *failed.borrow_mut() = Some(sig.clone());
                             Err(TestCaseError::fail(sig))
                         }
                     });
                     if let Err(TestError::Fail(_, minimal)) = res {
                         let target = failed.borrow().clone().unwrap_or_default();
-                        sess.confirm_and_record(&minimal, u.flavour, &target, "generated", slot);
+                        sess.confirm_and_record(&minimal, u.flavour, &target, "generated", slot, u.cap.as_deref());
                     } else if let Err(TestError::Abort(r)) = res {
                         eprintln!("warning: proptest aborted unit {}: {}", plan.cell, r);
                     }
@@ -592,10 +630,10 @@ pub fn check(prop: &dyn Prop, opts: &Opts) -> i32 {
                     }
                     if let Some(o) = sess.exec(&mut wa, 'A', slot, case) {
                         sess.stats.lock().unwrap().enumerated += 1;
-                        let unknown = sess.digest(case, &o, 'A', true);
+                        let unknown = sess.digest(case, &o, 'A', true, None);
                         if let Some(d) = unknown.first() {
-                            let sig = full_sig(d, 'A');
-                            sess.confirm_and_record(case, 'A', &sig, "enumerated", slot);
+                            let sig = full_sig(d, 'A', None);
+                            sess.confirm_and_record(case, 'A', &sig, "enumerated", slot, None);
                         }
                     }
                 }
